@@ -87,7 +87,7 @@ type boxFromDesc struct {
 	Exact bool
 }
 
-// array-level entry point on a large array: the points are integers in [-9,9] drawn from PSeed
+// array-level entry point on a large array: N pairwise DISTINCT integer points of [-32,31]^3 (distinctPoints(N, PSeed))
 type bigDesc struct {
 	Entry   string // mesh.Rotate mesh.Translate mesh.Scale mesh.ApplyTRS trs.TransformArray trs.TransformInPlace quat.RotateArray
 	N       int
@@ -693,11 +693,7 @@ func doBig(d bigDesc) {
 	if !known || d.N < 0 || (d.N == 0 && strings.HasPrefix(d.Entry, "mesh.")) { // a mesh needs a Position attribute
 		return
 	}
-	pr := hx.NewRng(d.PSeed)
-	in := make([]vector3.Float64, d.N)
-	for i := range in {
-		in[i] = vector3.New(float64(pr.Range(-9, 9)), float64(pr.Range(-9, 9)), float64(pr.Range(-9, 9)))
-	}
+	in := distinctPoints(d.N, d.PSeed)
 	q, t := toQ(d.Q), trs.New(toV(d.P), toQ(d.Q), toV(d.S))
 	var scalar func(vector3.Float64) vector3.Float64
 	switch op {
@@ -799,6 +795,24 @@ func doBig(d bigDesc) {
 		}
 	}
 	entry := map[string]int{"trs.TransformArray": 1, "trs.TransformInPlace": 2, "quat.RotateArray": 3}[d.Entry]
+	// weighted fingerprint over ALL elements (exact: integer points, integer parameters): sum_i w_i in_i, sum_i w_i out_i
+	fp := "0 []%Q []%Q"
+	if ok && len(out) == len(in) && allInts(d.P, d.S, d.Q) {
+		var w float64
+		si, so := make([]float64, 3), make([]float64, 3)
+		for i := range in {
+			wi := float64(i%1024 + 1)
+			w += wi
+			a, b := fromV(in[i]), fromV(out[i])
+			for k := 0; k < 3; k++ {
+				si[k] += wi * a[k]
+				so[k] += wi * b[k]
+			}
+		}
+		if finite(so...) && maxabs(so) < 1<<52 {
+			fp = fmt.Sprintf("%d %s %s", int64(w), qlist(si), qlist(so))
+		}
+	}
 	coq := ""
 	if ok && inputTouched >= 0 {
 		crash = fmt.Sprintf("%s on %d points changed its input (the caller's array / the receiver mesh) at index %d", d.Entry, d.N, inputTouched)
@@ -809,11 +823,112 @@ func doBig(d bigDesc) {
 		ok = false
 	}
 	if ok {
-		coq = fmt.Sprintf("CBig 0%%Q %d %d %d %d %s %s %s %s [%s]", op, entry, d.N, mism, hx.CoqBool(len(out) == d.N),
-			qlist(d.P), qlist(d.S), qlist(d.Q), strings.Join(items, ";"))
+		coq = fmt.Sprintf("CBig 0%%Q %d %d %d %d %s %s %s %s [%s] %s", op, entry, d.N, mism, hx.CoqBool(len(out) == d.N),
+			qlist(d.P), qlist(d.S), qlist(d.Q), strings.Join(items, ";"), fp)
 	}
 	run.Count("big:" + d.Entry)
 	add("big", d, true, coq, crash, ok)
+}
+
+// distinctPoints: n pairwise distinct integer points of [-32,31]^3 (n <= 2^18), order scrambled by seed
+func distinctPoints(n int, seed uint64) []vector3.Float64 {
+	pts := make([]vector3.Float64, n)
+	for i := range pts {
+		j := (uint64(i)*40503 + seed) % (1 << 18) // odd multiplier: a bijection of 0 .. 2^18-1
+		pts[i] = vector3.New(float64(j%64)-32, float64(j/64%64)-32, float64(j/4096)-32)
+	}
+	return pts
+}
+
+func allInts(ls ...[]float64) bool {
+	for _, l := range ls {
+		for _, x := range l {
+			if x != math.Trunc(x) || math.Abs(x) > 1<<20 {
+				return false
+			}
+		}
+	}
+	return true
+}
+
+// NewAABBFromPoints (and Mesh.BoundingBox, which hands the Position array to it) on N distinct points, optionally moved
+// by Off and scaled by 2^Exp (exact)
+type bigBoxDesc struct {
+	N       int
+	PSeed   uint64
+	ViaMesh bool
+	Off     []float64
+	Workers int
+}
+
+func doBigBox(d bigBoxDesc) {
+	if d.N < 1 || d.N > 1<<18 {
+		return
+	}
+	pts := distinctPoints(d.N, d.PSeed)
+	for i := range pts {
+		// x grows and y falls strictly with the index: every point is a new extreme, so the box of ANY proper prefix or
+		// suffix (a dropped remainder, a skipped first batch) is strictly smaller than the box of all points
+		pts[i] = pts[i].Add(toV(d.Off)).Add(vector3.New(64*float64(i), -64*float64(i), 0))
+	}
+	arg := append([]vector3.Float64{}, pts...)
+	var b geometry.AABB
+	crash := guard(func() {
+		if d.Workers > 0 {
+			defer runtime.GOMAXPROCS(runtime.GOMAXPROCS(d.Workers))
+		}
+		if d.ViaMesh {
+			b = modeling.NewMesh(modeling.PointTopology, []int{}).SetFloat3Attribute(modeling.PositionAttribute, arg).BoundingBox(modeling.PositionAttribute)
+		} else {
+			b = geometry.NewAABBFromPoints(arg...)
+		}
+	})
+	c, e := boxParts(b)
+	lo, hi := fromV(pts[0]), fromV(pts[0])
+	ext := [6]int{}
+	allIn := true
+	for i, p := range pts {
+		if crash == "" && arg[i] != p {
+			crash = fmt.Sprintf("NewAABBFromPoints on %d points changed its argument at index %d", d.N, i)
+		}
+		v := fromV(p)
+		for k := 0; k < 3; k++ {
+			if v[k] < lo[k] {
+				lo[k], ext[k] = v[k], i
+			}
+			if v[k] > hi[k] {
+				hi[k], ext[3+k] = v[k], i
+			}
+		}
+		if crash == "" && finite(flat(c, e)...) && (!b.Contains(p) || !inBoxTol(c, e, v, 0)) {
+			allIn = false
+			crash = fmt.Sprintf("NewAABBFromPoints on %d points: point %d = %v is not in the box (centre %v extents %v)", d.N, i, v, c, e)
+		}
+	}
+	ok := crash == "" && finite(flat(c, e)...)
+	if ok {
+		for k := 0; k < 3; k++ {
+			if c[k]-e[k] != lo[k] || c[k]+e[k] != hi[k] {
+				crash = fmt.Sprintf("NewAABBFromPoints on %d points: box [%v +- %v] is not the tight box [%v, %v]", d.N, c, e, lo, hi)
+				ok = false
+			}
+		}
+	}
+	coq := ""
+	if ok {
+		idx := append([]int{0, d.N / 2, d.N - 1}, ext[:]...)
+		seen := map[int]bool{}
+		var sm [][]float64
+		for _, i := range idx {
+			if !seen[i] {
+				seen[i] = true
+				sm = append(sm, fromV(pts[i]))
+			}
+		}
+		coq = fmt.Sprintf("CBigBox 0%%Q %d %s %s %s %s %s %s", d.N, qlist(lo), qlist(hi), qlist(c), qlist(e), hx.CoqBool(allIn), qlistlist(sm))
+	}
+	run.Count("big:aabb.FromPoints")
+	add("bigbox", d, true, coq, crash, ok)
 }
 
 func doClosest(d closestDesc) {
@@ -976,6 +1091,13 @@ func dispatch(kind string, raw json.RawMessage) {
 		var d closestDesc
 		un(&d)
 		doClosest(d)
+	case "bigbox":
+		var d bigBoxDesc
+		un(&d)
+		if d.Off == nil {
+			d.Off = []float64{0, 0, 0}
+		}
+		doBigBox(d)
 	case "boxmisc":
 		var d boxMiscDesc
 		un(&d)
